@@ -78,13 +78,11 @@ end
     rules, same routing — `a`, `b` are whatever was observed under each spelling -/
 def holdsSpellings {α} [BEq α] (t : Tree) (a b : α) : Bool := !wellTyped t || a == b
 
-/-! ### an accepted configuration never crashes a request -/
+/-! ### an accepted configuration never crashes a request
 
-/-- C05-b (shared root cause): a Host that opens a bracket and never closes it -/
-def inClass_C05_b (host : Bytes) : Bool :=
-  match host with
-  | 91 :: _ => !host.contains 93
-  | _ => false
+  (the class predicate of finding C05-b — a Host that opens a bracket and never closes it — stood
+  here until `util.DropPort` was repaired; the oracle of stream `reqpath` now judges those Hosts
+  like any other) -/
 
 /-! ### reload -/
 
@@ -106,8 +104,8 @@ def kindOf (checksum : Nat) : Fetch → Kind
       | .error _ => .invalidRules
       | .ok _ =>
         match parseStorageConfigs d with
-        | .ok (some _) => .valid
-        | _ => .invalidStorages
+        | some _ => .valid
+        | none => .invalidStorages
 
 /-- what a client can see of the serving state: for each probe request the destination
     pattern of the rule that takes it (`none`: 404), for each probed cache id whether a
@@ -143,23 +141,10 @@ def holdsStep (k : Kind) (before : Obs) (after restart : Option Obs) : Bool :=
     | _, _ => false
   | _ => after == some before
 
-/-- C19-a: rules accepted, cache section rejected with an *error* -/
-def inClass_C19_a (f : Fetch) : Bool :=
-  match f with
-  | .error => false
-  | .doc _ d =>
-    match parseRules d, parseStorageConfigs d with
-    | .ok _, .ok none => true
-    | _, _ => false
-
-/-- C19-b: rules accepted, cache section lists an id or a path twice -/
-def inClass_C19_b (f : Fetch) : Bool :=
-  match f with
-  | .error => false
-  | .doc _ d =>
-    match parseRules d, parseStorageConfigs d with
-    | .ok _, .panic _ => true
-    | _, _ => false
+/- The class predicates of findings C19-a (rules accepted, cache section rejected with an error)
+   and C19-b (rules accepted, a cache id or path listed twice) stood here until `configReloader`
+   and `ParseStorageConfigs` were repaired; both kinds of document are now plain
+   `invalidStorages` attempts and are judged by `holdsStep` like every other failed reload. -/
 
 /-- C19-d: a valid new configuration that keeps a cache id in use AND adds a new one -/
 def inClass_C19_d (s : State) (f : Fetch) : Bool :=
@@ -167,8 +152,8 @@ def inClass_C19_d (s : State) (f : Fetch) : Bool :=
   | .error => false
   | .doc _ d =>
     match parseStorageConfigs d with
-    | .ok (some cfgs) =>
+    | some cfgs =>
       cfgs.any (fun c => s.storages.any (·.id = c.id)) && cfgs.any (fun c => !s.storages.any (·.id = c.id))
-    | _ => false
+    | none => false
 
 end Spec.C19
